@@ -19,10 +19,13 @@ MANIFEST = {
             "by track initialisation / reseed or is in a justified written-before-read list "
             "(a new un-reset field breaks the proof); reseeding is a function of (seed, event, "
             "slot count, slot) only (C13 init_eq); slot-local updates give the same per-slot "
-            "states under any thread->slot permutation; for a key-sorted thread array the action "
-            "range [off[a], off[a+1]) contains exactly the threads of action a (plus, for the "
-            "largest present action, the trailing unset threads — as the code is written); an "
-            "event's visible result is a function of (primaries, seed, event id, slot count). "
+            "states under any thread->slot permutation; sort_tracks (std::partition / std::sort "
+            "models) only permutes the indirection array; for every key-sorted thread array, any "
+            "size, the offsets computed by count_tracks_per_action + backfill_action_count AS "
+            "WRITTEN have a closed form and [off[a], off[a+1]) contains exactly the threads of "
+            "action a plus — only for the largest present action — the trailing unset-action "
+            "threads; an event's visible result is a function of (primaries, seed, event id, "
+            "slot count). "
             "Tested, not proved: that every real action is slot-local and reads only the visible "
             "fields — differential runs of the same event after random prefixes (other events, an "
             "aborted event + reset, warm-up), under every re-indexing TrackOrder, action timing "
@@ -189,7 +192,8 @@ def run(ctx):
     ctx.coverage["explanation"] = (
         "PROVED (Lean, on the model): init_overwrites_every_field over the regenerated field "
         "lists; reseed is a function of (seed,event,slots,slot); slot_local_map_perm_invariant; "
-        "action ranges exact for key-sorted arrays as the offsets are computed by the code; "
+        "sortTracks_perm; count_tracks_per_action_closed_form and action_ranges_exact for the loop "
+        "+ backfill as written (induction over the thread index / right-to-left fill); "
         "event_result_is_function_of (noninterference induction given slot-locality). "
         "TESTED ONLY: that the C++ actions are slot-local and read no left-over state — by "
         "differential replays of the same event after random histories and under all re-indexing "
